@@ -555,6 +555,17 @@ def f_minconsume(ctx, prog):
     ctx.floor('F-MINCONSUME', 'Decode impls', n, 80)
 
 
+def lemma_prim(ctx):
+    """the part of C02 every decoder-level table rests on: the byte-level model of the input primitives (l1) is what the real
+    primitives do, and nothing else touches the input"""
+    prog = load.program('core-full', 'serde-full')
+    ctx.rules_run.append('T-PRIM: input primitives: Ok <=> bounds check succeeded, position advanced by exactly the bytes returned, the bytes returned are the input at the old position; error = EndOfInput with position unchanged')
+    t_prim(ctx, prog)
+    ctx.rules_run.append('F-INPUT: Decoder.buf / Decoder.pos are touched only by the checked input primitives')
+    f_input(ctx, prog)
+    return 'input primitives'
+
+
 def run(ctx):
     prog = load.program('core-full', 'serde-full')
     # rendering code (Display / Debug impls and private helpers only they call) is C19's subject, whatever module it lives in
